@@ -48,6 +48,9 @@ def small_docs(rng):
         docs.append({'stories': stories, 'comments': cs, 'next_uid': g.uid + 1000, 'rpr_table': g.table_list(), 'features': ['small']})
     return docs
 
+def review_line(doc, author, acts):
+    code = {'ACCEPT': 0, 'REJECT': 1, 'REPLY': 2}
+    return '(%s %s %s (%s))' % (A.sx_doc(doc), A.sx_str(author), A.sx_str('SESSION'), ' '.join('(%d %s %s)' % (code[k], A.sx_str(t), A.sx_str(x or '')) for k, t, x in acts))
 def ref_apply(tp, acts):
     """independent reference: the actions on the reader's tape; returns (tape, applied, skipped)"""
     ap = sk = 0
@@ -103,7 +106,7 @@ def run(tier, seed):
     lines = []
     for di, acts in jobs:
         if acts == 'ALL': lines.append(None)
-        else: lines.append('(%s (%s))' % (A.sx_doc(norm[di]), ' '.join('(%d %s %s)' % (0 if k == 'ACCEPT' else 1, A.sx_str(t), A.sx_str('')) for k, t, _ in acts)))
+        else: lines.append(review_line(norm[di], 'Tester', acts))
     mrev = iter(core.run_driver('review', [l for l in lines if l is not None]))
     mall = iter(core.run_driver('acceptall', [A.sx_doc(norm[di]) for (di, acts) in jobs if acts == 'ALL']))
     kinds = {'exhaustive_small': 0, 'random': 0, 'accept_all': 0}; distinct = set(); acc_all_text = {}
